@@ -508,9 +508,11 @@ class CallMixin:
         return self.dict_getitem(d, args[0], st, node)
 
     def dm_contains(self, d, args, kwargs, st, node):
+        self.on_field_access(st, d, 'dom', 'read', node)
         return [(SBool(z3.Select(self.hload(st, d, 'dom'), self.coerce(st, args[0], d.cls.k))), st)]
 
     def dm_len(self, d, args, kwargs, st, node):
+        self.on_field_access(st, d, 'size', 'read', node)
         return [(SInt(self.hload(st, d, 'size')), st)]
 
     def dm_pop(self, d, args, kwargs, st, node):
